@@ -104,14 +104,55 @@ def make_cases(pid, tier, seed):
     cases = []
     bodies = body_family(pid, tier, seed)
     modes = MODES[pid]
-    for bi, body in enumerate(bodies):
+    pbodies = []
+    if pid in ("C16", "C20", "C17"):
+        # functions with a parameter and a declared local whose values are observed at the end
+        ends_open = [b for b in bodies if len(b) >= 2 and b[-2][0] not in ("br", "return", "unreachable", "br_table")]
+        pbodies = [F.with_param_obs(b) for b in ends_open[: (40 if tier == "quick" else 200)]]
+    for bi, body in enumerate(bodies + pbodies):
+        isp = bi >= len(bodies)
         plans = F.single_plans(body, modes)
+        if isp:
+            plans = [pl for pl in plans if pl[0]["mode"] in ("semantic_after", "func_exit", "func_entry", "block_exit")]
         if pid == "C15":
             # multiple injections per site: two probes at the same instruction, different plain modes
             n = len(body)
             for i in range(n):
-                plans.append([{"at": i, "mode": "before", "marker": 7, "ops": F.probe_ops(7)}, {"at": i, "mode": "after", "marker": 9, "ops": F.probe_ops(9)}])
-                plans.append([{"at": i, "mode": "before", "marker": 7, "ops": F.probe_ops(7)}, {"at": i, "mode": "before", "marker": 9, "ops": F.probe_ops(9)}])
+                structural = body[i][0] in F.STRUCTURAL
+                combos = [("before", "after"), ("before", "before"), ("after", "after")]
+                if not structural:
+                    combos += [("alt", "after"), ("before", "alt"), ("empty_alt", "after"), ("before", "empty_alt"), ("alt", "alt")]
+                for ma, mb in combos:
+                    pa = {"at": i, "mode": ma, "marker": 7, "ops": F.probe_ops(7) if ma != "empty_alt" else []}
+                    pb = {"at": i, "mode": mb, "marker": 9, "ops": F.probe_ops(9) if mb != "empty_alt" else []}
+                    plans.append([pa, pb])
+                if not structural:
+                    # all three on one site
+                    plans.append([{"at": i, "mode": "before", "marker": 7, "ops": F.probe_ops(7)}, {"at": i, "mode": "alt", "marker": 9, "ops": F.probe_ops(9)},
+                                  {"at": i, "mode": "after", "marker": 11, "ops": F.probe_ops(11)}])
+        if pid in ("C16", "C18", "C19", "C20", "C21") and len(body) <= (8 if tier == "quick" else 12):
+            # two probes of different modes on the SAME instruction (lowering of one must not disturb the other)
+            own = {"C18": ["block_entry"], "C19": ["block_exit"], "C20": ["semantic_after"], "C21": ["block_alt"],
+                   "C16": ["block_entry", "block_exit", "semantic_after"]}[pid]
+            others = ["block_entry", "block_exit", "semantic_after", "before", "after"]
+            for a in F.single_plans(body, own):
+                for b in F.single_plans(body, [m for m in others if m != a[0]["mode"]]):
+                    if b[0].get("at") != a[0].get("at"):
+                        continue
+                    if pid == "C16" and b[0]["mode"] in ("before", "after") and body[b[0]["at"]][0] in ("else", "end", "loop"):
+                        continue
+                    if a[0]["mode"] == "block_alt":
+                        continue   # probes on a replaced construct are removed with it
+                    plans.append([a[0], dict(b[0], marker=9, ops=F.probe_ops(9))])
+        if pid == "C22" and len(body) <= 8:
+            # a special-mode probe followed by a plain probe elsewhere in the same function (and the other way
+            # round): a later injection must not make encoding forget the special one
+            sp = F.single_plans(body, ["block_entry", "semantic_after", "func_exit"])
+            pl = F.single_plans(body, ["before", "after"])
+            for a in sp[:3]:
+                for b in pl[:2] + pl[-1:]:
+                    plans.append([a[0], dict(b[0], marker=9, ops=F.probe_ops(9))])
+                    plans.append([dict(b[0], marker=9, ops=F.probe_ops(9)), a[0]])
         if pid == "C16" and tier == "thorough":
             plans += F.pair_plans(body, ["before", "block_exit", "func_exit"], ["after", "semantic_after", "block_entry"])[:40]
         if pid == "C16":
@@ -132,14 +173,15 @@ def make_cases(pid, tier, seed):
                 paths = ["moditer"]
             for path in paths:
                 cases.append({"id": "%s-b%d-p%d-%s" % (pid, bi, pi, path), "body": body, "plan": plan, "path": path,
-                              "encode_twice": pid == "C05", "results": 0})
+                              "encode_twice": pid == "C05", "results": 0, "params": 1 if isp else 0, "locals": 1 if isp else 0})
     return cases
 
 
 # ---------------------------------------------------------------- obligations
 def obligation(args):
     """worker: one z3 query.  args = (key, impl_ops, types, spec_ops, plan_for_hooks, marker_filter)"""
-    key, impl_ops, types, spec_ops, plan, mf = args
+    key, impl_ops, types, spec_ops, plan, mf = args[:6]
+    nparams = args[6] if len(args) > 6 else 0
     from tv import machine as M, spec as SP
     t0 = time.time()
     try:
@@ -150,7 +192,7 @@ def obligation(args):
         for o in spec_ops:
             if o[0] == "br_table":
                 sel = max(sel, len(o[1]))
-        r, sched, st = M.equivalent(impl, sp, hooks, mf, sel_range=sel)
+        r, sched, st = M.equivalent(impl, sp, hooks, mf, sel_range=sel, nparams=nparams)
         return key, r, sched, round(time.time() - t0, 2), st
     except M.Unsupported as e:
         return key, "unsupported:" + str(e), None, round(time.time() - t0, 2), {}
@@ -183,10 +225,15 @@ def shape_of(what, detail):
     return "syntax"
 
 
-def role_of(pid, case):
-    """role-normalised description of a failing case (for known findings): mode + site kind + context"""
+def role_of(pid, case, detail=None):
+    """role-normalised description of a failing case (for known findings): mode + site kind + context.
+    For plans with several probes the probe whose marker the failing obligation was filtered on is described."""
     body, plan = case["body"], case["plan"]
     p = plan[0]
+    if isinstance(detail, dict) and detail.get("marker_filter") is not None:
+        for q in plan:
+            if q["marker"] == detail["marker_filter"]:
+                p = q
     mode = p["mode"]
     if "at" not in p:
         return mode
@@ -270,11 +317,12 @@ def run_engine_t(pid, tier, seed, out, ev):
             # "reflected in the encoded module": the probe's code (i32.const <marker>; call $probe) occurs in the output
             c["_ops"] = impl_ops
             for p in c["plan"]:
-                if p.get("ops"):
+                # only special modes are C22's subject (plain after-code at the final end is dropped by design, C15)
+                if p.get("ops") and p["mode"] in MODES["C22"]:
                     m = p["marker"]
                     present = any(impl_ops[j] == ["i32.const", m] and impl_ops[j + 1] == ["call", 1] for j in range(len(impl_ops) - 1))
                     if not present:
-                        violations.append((c, "accepted special-mode injection is absent from the encoded function (silently dropped)", {"impl": impl_ops}))
+                        violations.append((c, "accepted special-mode injection is absent from the encoded function (silently dropped)", {"impl": impl_ops, "marker_filter": m}))
             continue
         if pid == "C15":
             want = S.norm(S.splice_plain(c["body"], c["plan"]))
@@ -302,14 +350,21 @@ def run_engine_t(pid, tier, seed, out, ev):
             if q is not None:
                 plan_h.append(q)
         filters = sorted(set(p["marker"] for p in c["plan"] if p.get("ops")))
+        if pid in ("C17", "C18", "C19", "C20", "C21"):
+            # only the probes of this property's own modes are judged here; a second probe of another mode on the
+            # same site is there to disturb the lowering, its own correctness belongs to that mode's property
+            filters = sorted(set(p["marker"] for p in c["plan"] if p.get("ops") and p["mode"] in MODES[pid]))
+            if pid == "C21" and not filters:
+                filters = [None]
         if pid == "C16":
             filters = [None] + filters
         if pid == "C22":
             filters = filters[:1]
         for mf in filters:
             key = hashlib.sha1(repr((impl_ops, types, spec_ops, [(p.get("at"), p["mode"], p["marker"]) for p in plan_h], mf)).encode()).hexdigest()
+            key = key + str(c.get("params", 0))
             if key not in todo:
-                todo[key] = (key, impl_ops, types, spec_ops, plan_h, mf)
+                todo[key] = (key, impl_ops, types, spec_ops, plan_h, mf, c.get("params", 0))
             users.setdefault(key, []).append(c)
     C.say("[T] %d distinct obligations from %d cases" % (len(todo), tres["programs"]))
     # ---- solve
@@ -323,7 +378,7 @@ def run_engine_t(pid, tier, seed, out, ev):
     tres["obligations"] = len(solved)
     n_unsat = n_sat = 0
     for key, (r, sched, dt, st) in solved.items():
-        _, impl_ops, types, spec_ops, plan_h, mf = todo[key]
+        _, impl_ops, types, spec_ops, plan_h, mf = todo[key][:6]
         c = users[key][0]
         if r == "unsat":
             n_unsat += 1
@@ -336,11 +391,14 @@ def run_engine_t(pid, tier, seed, out, ev):
             n_sat += 1
             tres["disagreements_checked"] += 1
             # replay with the independent interpreter
-            ea = I.run(impl_ops, sched, None, types, marker_filter=mf)
-            eb = I.run(spec_ops, sched, plan_h, None, marker_filter=mf)
+            pvals = ()
+            if isinstance(sched, dict):
+                pvals, sched = tuple(sched["params"]), sched["conds"]
+            ea = I.run(impl_ops, sched, None, types, marker_filter=mf, params=pvals)
+            eb = I.run(spec_ops, sched, plan_h, None, marker_filter=mf, params=pvals)
             if ea != eb and ea[1] in ("return", "trap") and eb[1] in ("return", "trap"):
                 violations.append((c, "trace of the instrumented body differs from the prescribed trace on oracle stream %s: got %s, prescribed %s" % (sched, ea, eb),
-                                   {"impl": impl_ops, "spec": spec_ops, "plan": plan_h, "schedule": sched, "marker_filter": mf, "impl_trace": ea, "spec_trace": eb, "types": types}))
+                                   {"impl": impl_ops, "spec": spec_ops, "plan": plan_h, "schedule": sched, "params": list(pvals), "marker_filter": mf, "impl_trace": ea, "spec_trace": eb, "types": types}))
             else:
                 out.inconclusive.append("z3 model for %s does not reproduce in the independent interpreter (%s vs %s): encoding problem" % (c["id"], ea, eb))
         else:
@@ -357,26 +415,18 @@ def run_engine_t(pid, tier, seed, out, ev):
             ra, rb = byid.get(a["id"], {}), byid.get(b["id"], {})
             if (ra.get("ok"), ra.get("ops"), ra.get("locals")) != (rb.get("ok"), rb.get("ops"), rb.get("locals")):
                 violations.append((b, "the component iterator emits a different function than the module iterator for the same plan", {"moditer": ra, "compiter": rb}))
-    # ---- C22 cross-path agreement: a special-mode probe accepted on one path must be reflected on every path
-    if pid == "C22":
-        groups = {}
-        for c in cases:
-            groups.setdefault(c["id"].rsplit("-", 1)[0], []).append(c)
-        for gid, cs in groups.items():
-            outs = {}
-            for c in cs:
-                r = byid.get(c["id"], {})
-                outs[c["path"]] = ("rejected" if c.get("_rejected") is not None else json.dumps(r.get("ops"))) if (r.get("ok") or c.get("_rejected") is not None) else "panic"
-            ref = outs.get("moditer")
-            for path, o in outs.items():
-                if o != ref and o != "rejected":
-                    violations.append((next(c for c in cs if c["path"] == path), "special-mode injection through %s is lowered differently from the module iterator path (lost or changed)" % path, {"paths": outs}))
+    # (C22 demands that nothing accepted is lost - checked above per path.  An earlier version also demanded that
+    #  all five paths emit the SAME function; that is more than the property states and raised a false alarm:
+    #  after `func_exit()` a ModuleIterator keeps injecting at function level (its finish_instr() resets only the
+    #  instruction-level mode), so a later plain probe lands in the exit code - odd, but nothing is lost.)
     # ---- translator validation (Serval-style): z3 machine vs independent interpreter on pinned schedules
     import itertools
     from tv import machine as M
     nval = 0
     for key in list(todo)[:6]:
-        _, impl_ops, types, spec_ops, plan_h, mf = todo[key]
+        _, impl_ops, types, spec_ops, plan_h, mf = todo[key][:6]
+        if len(todo[key]) > 6 and todo[key][6]:
+            continue
         try:
             sp = M.Prog(spec_ops)
             hooks = S.build_hooks(sp, plan_h)
@@ -396,7 +446,7 @@ def run_engine_t(pid, tier, seed, out, ev):
     kcount = {}
     import re as _re
     for c, what, detail in violations:
-        role = role_of(pid, c) + "+" + shape_of(what, detail)
+        role = role_of(pid, c, detail) + "+" + shape_of(what, detail)
         kf = [k for k in known if _re.search(k["role_re"], role)]
         if kf:
             kcount.setdefault(kf[0]["key"], [kf[0], 0, set(), c["id"]])
@@ -413,7 +463,7 @@ def run_engine_t(pid, tier, seed, out, ev):
         out.known.append("KNOWN-FINDING: property=%s %s (%d cases in %d roles, e.g. %s): %s" % (pid, key, cnt, len(rls), eg, k["what"]))
     roles = {}
     for c, what, detail in violations:
-        roles.setdefault(role_of(pid, c) + "+" + shape_of(what, detail), []).append(c["id"])
+        roles.setdefault(role_of(pid, c, detail) + "+" + shape_of(what, detail), []).append(c["id"])
     for ro, ids in sorted(roles.items()):
         C.say("[T] failing role %-60s %4d cases e.g. %s" % (ro, len(ids), ids[0]))
     tres["failing_roles"] = {ro: len(ids) for ro, ids in roles.items()}
@@ -434,8 +484,8 @@ def run_replay(pid, d):
     det = d.get("detail", {})
     if "schedule" in det and r.get("ok"):
         mf = det["marker_filter"]
-        ea = I.run(r["ops"], det["schedule"], None, r["types"], marker_filter=mf)
-        eb = I.run(det["spec"], det["schedule"], det["plan"], None, marker_filter=mf)
+        ea = I.run(r["ops"], det["schedule"], None, r["types"], marker_filter=mf, params=tuple(det.get("params", [])))
+        eb = I.run(det["spec"], det["schedule"], det["plan"], None, marker_filter=mf, params=tuple(det.get("params", [])))
         print("instrumented trace:", ea, " prescribed trace:", eb)
         if ea != eb:
             print("VIOLATION property=%s replay=%s" % (pid, d["how"].split("--replay ")[1]))
